@@ -82,3 +82,51 @@ func VerifC10_EndToEnd() {
 		verifapi.Cover("longest payload")
 	}
 }
+
+// VerifC10_ArbitraryText: arbitrary bytes inside (and running out of) a pre element, through
+// the real tokenizer.  decodeToWriter never panics, accounts for every byte it hands on, never
+// hands on whitespace; and when the arbitrary part holds no markup-significant byte the output
+// is exactly its non-whitespace bytes in order (the reference decoder), with an error exactly
+// when the element is left open.
+func VerifC10_ArbitraryText() {
+	max := verifapi.Param("alen", 3)
+	a := verifapi.Bytes("a", max)
+	n := verifapi.Concrete(len(a))
+	a = a[:n]
+	closed := verifapi.Bool("closed")
+	doc := []byte("<p>x</p><pre>\n0")
+	doc = append(doc, a...)
+	if closed {
+		doc = append(doc, []byte("</pre>")...)
+	}
+	var text bytes.Buffer
+	total, err := decodeToWriter(&text, bytes.NewReader(doc))
+	verifapi.Cover("returned")
+	t := text.Bytes()
+	verifapi.Assert(int(total) == len(t), "total counts the bytes handed on")
+	for i := 0; i < len(t); i++ {
+		verifapi.Assert(!verifIsWS(t[i]), "no whitespace is handed on")
+	}
+	plain := true
+	for i := 0; i < n; i++ {
+		b := a[i]
+		if verifapi.Or(verifapi.Or(b == '<', b == '&'), verifapi.Or(b == 0, b >= 0x80)) {
+			plain = false
+		}
+	}
+	if plain {
+		verifapi.Cover("plain text")
+		var want []byte
+		want = append(want, '0')
+		for i := 0; i < n; i++ {
+			if !verifIsWS(a[i]) {
+				want = append(want, a[i])
+			}
+		}
+		verifapi.Assert(len(t) == len(want), "plain text: every non-whitespace byte is handed on, nothing else")
+		for i := 0; i < len(want) && i < len(t); i++ {
+			verifapi.Assert(t[i] == want[i], "plain text: bytes in order")
+		}
+		verifapi.Assert((err == nil) == closed, "plain text: an error exactly when the pre element is left open")
+	}
+}
